@@ -45,15 +45,16 @@ PARTIAL = ["build_strict_layout_partial: proved for WFLayout (single-spaced meta
            "blank_run_at_wrap_record_witness) and C03-nameless-locus (witness nameless_locus_witness); a record with blank runs none of which "
            "falls on a wrap point satisfies the clause (judged on every such case) but is outside the proved hypothesis",
            "parse_build (WFSeq x → parse (build x o) ≈ ok x over the parser model of C01): proved as parse_build_partial (Props/C03Parse.lean) under "
-           "`covered x`. Conjuncts of `covered` beyond wfSeq and why each remains (all because C01's composition theorem parseLoop_layout is stated "
-           "for C01's record type GbRec / layout): (1) molecule type one of DNA/mRNA/tRNA/rRNA [GbRec.MolType has four constructors]; (2) exactly one "
-           "of Circular/Linear [RLocus.topo is not optional]; (3) a division [RLocus.division is an index]; (4) a date with a real month [isDateText; no "
-           "empty date]; (5) SequenceLength = decimal number of bases [locusLine writes ofNat seq.length]; (6) every REFERENCE has a range [refHead "
-           "writes `1` where Build writes `1` + two blanks] and number+range fit on one line [a break of WrapString inside the range needs the bridge "
-           "lemma for texts with a blank run; not done]; (7) extra keywords of <= 10 capitals [isExtraKey]; (8) qualifier keys over [A-Za-z0-9_] "
-           "[isQualKeyChar]; (9) no quotation mark in values [GbLayout.wfQual]; (10) feature keys / location texts over C01's character sets "
-           "[isFeatKeyChar, isLocChar / isLocText: no '-' of a negative coordinate]; (11) single-spaced metadata, name present [wfSeq: the two known findings] and positional Index "
-           "[toRefs numbers by position]. A request to generalise GbRec is in notes/requests/C01-from-C03.md",
+           "`covered x` = wfSeq x && refsFit && GbLayout.wf (toRec x). Since C01's widening the locus is unrestricted (any of the twelve molecule "
+           "types or none, optional topology / division / length string / date; empty reference range; wide key sets; inner quotation marks). "
+           "What `covered` still adds to wfSeq, with the reason: (1) a date, when present, has a real month [C01 isDateText; wfSeq's isDate accepts "
+           "any three capitals]; (2) no quotation mark in a qualifier key [C01 isQualKeyChar: under the 9a46c6b rule such a key breaks value-less / "
+           "unquoted qualifiers, which C01's layouts include]; (3) the location text (cached, or printed from the structure) is ONE INSDC-shaped "
+           "expression [C01 isLocText: rules out `join()` of a Join node without... and texts with stray parentheses]; (4) fewer than 10^8 bases "
+           "[C01 wf; wfSeq: 10^9]; (5) number + two blanks + range of every REFERENCE fit on one line [the bridge lemma wrapText = lines∘WrapString "
+           "is proved for single-spaced text only, the REFERENCE line has a blank run]; (6) Reference.Index is the position [C01's toRefs / refHead "
+           "number by position; a set, different Index is covered by the judge only]; (7) from wfSeq itself: single-spaced metadata and a locus "
+           "name [the two known findings]",
            "parse_build_partial compares the location TEXT of each feature (Genbank.parse leaves parseLocation to C02). That the STRUCTURE "
            "parseLocation derives from that text equals the record's SequenceLocation (modulo normLoc) rests on (a) wfSeq's conjunct cacheConsistent for "
            "cached texts and (b) property C02's theorem parsed_structure (Props/C02.lean: parseLocation (print l) = ok (pembed l)) together with "
